@@ -183,24 +183,28 @@ Proof.
 Qed.
 
 (* ---- the whole template ---- *)
-Lemma template_roundtrip t :
-  TemplateRep t -> est_to_template (tid t) (template_to_est t) = Ok t.
+Lemma template_nodup t : TemplateRep t -> json_nodup (template_to_est t) = true.
 Proof.
   destruct t as [id ann eff pc ac rc body]. unfold TemplateRep. cbn [tprincipal taction tresource tannot tbody tid].
   intros (Hp & Ha & Hr & Hs & Hk & Hb).
-  unfold est_to_template.
-  assert (Hnd : json_nodup (template_to_est (mkTemplate id ann eff pc ac rc body)) = true).
-  { unfold template_to_est. cbn [teffect tprincipal taction tresource tannot tbody].
-    destruct ann as [|kv ann].
-    - cbn -[pr_to_est ac_to_est ast_to_est_conditions].
-      rewrite (pr_nodup SlotPrincipal pc), (ac_nodup ac), (pr_nodup SlotResource rc), (body_nodup _ Hb). reflexivity.
-    - unfold annotations_to_est.
-      cbn -[pr_to_est ac_to_est ast_to_est_conditions keys_nodup map].
-      rewrite (pr_nodup SlotPrincipal pc), (ac_nodup ac), (pr_nodup SlotResource rc), (body_nodup _ Hb).
-      cbn -[keys_nodup map].
-      rewrite (keys_nodup_map (fun v => JStr v) (kv :: ann)), (sort_fix_nodup _ Hs).
-      rewrite (ann_values_nodup (kv :: ann)). reflexivity. }
-  rewrite Hnd. unfold est_to_template_nocheck, template_to_est.
+  unfold template_to_est. cbn [teffect tprincipal taction tresource tannot tbody].
+  destruct ann as [|kv ann].
+  - cbn -[pr_to_est ac_to_est ast_to_est_conditions].
+    rewrite (pr_nodup SlotPrincipal pc), (ac_nodup ac), (pr_nodup SlotResource rc), (body_nodup _ Hb). reflexivity.
+  - unfold annotations_to_est.
+    cbn -[pr_to_est ac_to_est ast_to_est_conditions keys_nodup map].
+    rewrite (pr_nodup SlotPrincipal pc), (ac_nodup ac), (pr_nodup SlotResource rc), (body_nodup _ Hb).
+    cbn -[keys_nodup map].
+    rewrite (keys_nodup_map (fun v => JStr v) (kv :: ann)), (sort_fix_nodup _ Hs).
+    rewrite (ann_values_nodup (kv :: ann)). reflexivity.
+Qed.
+
+Lemma template_roundtrip_nocheck t :
+  TemplateRep t -> est_to_template_nocheck (tid t) (template_to_est t) = Ok t.
+Proof.
+  destruct t as [id ann eff pc ac rc body]. unfold TemplateRep. cbn [tprincipal taction tresource tannot tbody tid].
+  intros (Hp & Ha & Hr & Hs & Hk & Hb).
+  unfold est_to_template_nocheck, template_to_est.
   cbn [teffect tprincipal taction tresource tannot tbody].
   destruct ann as [|kv ann].
   - cbn -[pr_to_est ac_to_est ast_to_est_conditions est_to_pr est_to_ac conditions_to_ast effect_of].
@@ -211,4 +215,10 @@ Proof.
     rewrite effect_roundtrip, (conditions_roundtrip _ Hb). cbn [bind].
     rewrite (ann_list_roundtrip _ Hk). cbn [bind]. rewrite Hs.
     rewrite (pr_roundtrip _ _ Hp), (ac_roundtrip _ Ha), (pr_roundtrip _ _ Hr). reflexivity.
+Qed.
+
+Lemma template_roundtrip t :
+  TemplateRep t -> est_to_template (tid t) (template_to_est t) = Ok t.
+Proof.
+  intros H. unfold est_to_template. rewrite (template_nodup _ H). apply template_roundtrip_nocheck; assumption.
 Qed.
